@@ -665,6 +665,8 @@ class ExchangeRate:
         if unit_multiple < 1:
             raise ValueError("Unit multiple must be >= 1.")
         if isinstance(term_amount, Decimal):
+            if term_amount <= 0:
+                raise ValueError("Term amount must be >= 0.000001.")
             magnitude_term_amount = term_amount.magnitude
         else:
             try:
